@@ -398,11 +398,65 @@ func runC12(c *Ctx) {
 			c.Sample(map[string]interface{}{"config": seqConfigNames[cfg], "calls": seqNames(calls)})
 		}
 	})
+	// deep nesting: d containers opened, values at the bottom and on the way up, all closed
+	const (
+		iBeginList, iEndList, iBeginStruct, iEndStruct, iField, iAnnot, iInt, iString = 0, 1, 2, 3, 4, 5, 6, 9
+		iBeginSexp, iEndSexp                                                          = 12, 13
+	)
+	depths := []int{}
+	for d := 1; d <= 40; d++ {
+		depths = append(depths, d)
+	}
+	depths = append(depths, 63, 64, 65, 100, 127, 128, 129, 300)
+	if c.Thorough() {
+		depths = append(depths, 1000, 5000)
+	}
+	type deepJob struct{ d, shape int }
+	var jobs []deepJob
+	for _, d := range depths {
+		for shape := 0; shape < 6; shape++ {
+			jobs = append(jobs, deepJob{d, shape})
+		}
+	}
+	c.Parallel(len(jobs), func(w, ji int) {
+		d, shape := jobs[ji].d, jobs[ji].shape
+		var calls []int
+		var kinds []int // 0 list 1 struct 2 sexp
+		inStruct := false
+		for lvl := 0; lvl < d; lvl++ {
+			kind := shape
+			if shape >= 3 {
+				kind = (lvl + shape) % 3
+			}
+			if inStruct {
+				calls = append(calls, iField)
+			}
+			if shape == 5 && lvl%2 == 0 {
+				calls = append(calls, iAnnot)
+			}
+			calls = append(calls, []int{iBeginList, iBeginStruct, iBeginSexp}[kind])
+			kinds = append(kinds, kind)
+			inStruct = kind == 1
+		}
+		for lvl := d - 1; lvl >= 0; lvl-- {
+			if kinds[lvl] == 1 {
+				calls = append(calls, iField)
+			}
+			calls = append(calls, []int{iInt, iString}[lvl%2])
+			calls = append(calls, []int{iEndList, iEndStruct, iEndSexp}[kinds[lvl]])
+		}
+		calls = append(calls, iInt)
+		for cfg := 0; cfg < 4; cfg++ {
+			seqCheck(c, SeqCase{Config: cfg, Calls: calls})
+		}
+		c.Obs("deep_nesting_sequences", 4)
+	})
+	c.Exhaustive(fmt.Sprintf("nesting depths %v x 6 container shapes (lists, structs, sexps, three mixtures, one with annotations) x 4 writer configurations", depths))
 }
 
 func init() {
 	Register(&Monitor{ID: "C12", Run: func(c *Ctx) {
-		c.Rule = "Writer call sequences (exhaustive up to a bounded length over a reduced alphabet, random to length 60 over the full interface, biased towards legal continuations) x {text, pretty, binary with growing table, binary with fixed table}; a shadow protocol automaton driven by the actual return values decides which calls can be part of a valid stream; oracles: no panic, after the first error of a non-Finish call every later call errs, a nil final Finish implies output that the independent decoder accepts and whose values equal the successful calls batch by batch, two runs give identical bytes and results. Non-trivial: >= 3 calls with a misuse, an intermediate Finish or a nested container; distinct by (configuration, sequence)."
+		c.Rule = "Writer call sequences (exhaustive up to a bounded length over a reduced alphabet, random to length 60 over the full interface, biased towards legal continuations; nesting 1..40, 63..65, 100, 127..129, 300 (thorough: 1000, 5000) containers deep in 6 shapes) x {text, pretty, binary with growing table, binary with fixed table}; a shadow protocol automaton driven by the actual return values decides which calls can be part of a valid stream; oracles: no panic, after the first error of a non-Finish call every later call errs, a nil final Finish implies output that the independent decoder accepts and whose values equal the successful calls batch by batch, two runs give identical bytes and results. Non-trivial: >= 3 calls with a misuse, an intermediate Finish or a nested container; distinct by (configuration, sequence)."
 		c.Assume("pending annotations / field name at a successful End*/Finish may be dropped or kept (such sequences are checked for validity and stickiness only)")
 		runC12(c)
 	}, Replay: func(c *Ctx, v *Violation) string {
